@@ -15,7 +15,7 @@ func init() {
 	core.Register(&core.Prop{
 		ID:    "C19",
 		Level: "exploration",
-		Rule: "EXHAUSTIVE quadruples (object-left, object-right, tag-left, tag-right) of distinct, mutually non-prefixing strings of length 1..2 over the alphabet {<, >, $} (quick) / {<, >, [, ], $, @} (thorough), PRNG quadruples of length 1..4 over a 14-symbol punctuation alphabet with the regexp metacharacters ( ) * + ? . ^ \\ | ], and each of the 16 subsets of positions left empty. For each quadruple, generated templates (objects, tags, blocks, loops, hyphens on every side, raw/comment, multi-line tags, planted errors) are re-spelled with the custom delimiters via the frozen reference tokenizer and rendered on Engine.Delims(q); the result must equal the original on a default engine (bytes, or failure with the same LineNumber). A case is judged only if the re-spelled source tokenises under q into the same tokens. Partials reached through include are registered on each engine in its own spelling. The default delimiter strings must pass through as text under q. Templates in which an application tag expands the objects inside its own argument (render.Context.ExpandTagArg) are re-spelled inside the argument as well and compared the same way (every fifth exhaustive quadruple, every eighth random one, every empty-position subset). Non-trivial = the quadruple differs from the defaults; distinct = distinct (quadruple, template).",
+		Rule: "EXHAUSTIVE quadruples (object-left, object-right, tag-left, tag-right) of distinct, mutually non-prefixing strings of length 1..2 over the alphabet {<, >, $} (quick) / {<, >, [, ], $, @} (thorough), PRNG quadruples of length 1..4 over a 14-symbol punctuation alphabet with the regexp metacharacters ( ) * + ? . ^ \\ | ], and each of the 16 subsets of positions left empty. For each quadruple, generated templates (objects, tags, blocks, loops, hyphens on every side, raw/comment, multi-line tags, planted errors) are re-spelled with the custom delimiters via the frozen reference tokenizer and rendered on Engine.Delims(q) through ParseTemplate+Render, ParseAndRender, ParseAndRenderString and ParseAndFRender in turn; the result must equal the original on a default engine (bytes, or failure with the same LineNumber). A case is judged only if the re-spelled source tokenises under q into the same tokens. Partials reached through include are registered on each engine in its own spelling. The default delimiter strings must pass through as text under q. Templates in which an application tag expands the objects inside its own argument (render.Context.ExpandTagArg) are re-spelled inside the argument as well and compared the same way (every fifth exhaustive quadruple, every eighth random one, every empty-position subset). Non-trivial = the quadruple differs from the defaults; distinct = distinct (quadruple, template).",
 		Exhaustive: func(string) bool { return true },
 		Assumptions: []string{
 			"the hyphen is excluded from the delimiter alphabet (it would make the whitespace-control marker ambiguous)",
@@ -125,9 +125,13 @@ func validQuad(q [4]string) bool {
 }
 
 // c19Partial is included by some of the fixed templates (registered with ParseTemplateAndCache on both engines).
-const c19Partial = "[part n={{ n }} v={{ v }}{% if t %} t{% endif %} {{- s -}} ]\nplain line\n"
+const c19Partial = "[part n={{ n }} v={{ v }}{% if t %} t{% endif %} {{- s -}} {% include 'c19leaf.html' %}]\nplain line\n"
+
+// c19Leaf is included by c19Partial: an include inside an included file.
+const c19Leaf = "<leaf {{ v }}{% for i in (1..2) %}{{ i }}{% endfor %}>"
 
 var c19Fixed = []string{
+	"plain text only, no braces at all", "",
 	"a {% assign v = 5 %}{% include 'c19part.html' %} b {% for i in (1..2) %}{% assign v = i %}{% include \"c19part.html\" %}{% endfor %}",
 	"{% capture v %}cap{% endcapture %}x {%- include 'c19part.html' -%} y",
 	"a {{ n }} b {%- if t -%} yes {%- endif -%} c",
@@ -191,6 +195,7 @@ func c19SameShape(a string, qa [4]string, b string, qb [4]string, depth int) boo
 func runC19(c *core.Ctx) {
 	def := liquid.NewEngine()
 	RegisterCustom(def)
+	core.ParseCache(def, c19Leaf, "c19leaf.html", 1)
 	if _, pr := core.ParseCache(def, c19Partial, "c19part.html", 1); !pr.OK() {
 		c.Violate("harness|partial", "the partial does not parse on a default engine", map[string]any{"observed": pr.Brief()})
 		return
@@ -233,6 +238,7 @@ func runC19(c *core.Ctx) {
 		st.R, st.WS = r, []int{0, 0, 3, 5}[r.Intn(4)]
 		return st.Source(g.Program()), env
 	}
+	entries := 0
 	check := func(q [4]string, engQ [4]string, src string, env gen.Env, kind string) {
 		// q: delimiters used for re-spelling; engQ: what is passed to Delims ("" = default)
 		rs, toks := respell(src, q)
@@ -242,21 +248,40 @@ func runC19(c *core.Ctx) {
 		}
 		b := gen.CanonEnv(env)
 		want := core.Run(def, src, b)
-		e := liquid.NewEngine().Delims(engQ[0], engQ[1], engQ[2], engQ[3])
+		e := liquid.NewEngine()
+		if entries%3 == 0 {
+			// an earlier configuration of the same engine must not matter: Delims sets all four delimiters
+			e.Delims("[[", "]]", "[%", "%]")
+		}
+		e.Delims(engQ[0], engQ[1], engQ[2], engQ[3])
 		if strings.Contains(src, "c19part.html") {
-			// the partial is a template of the same engine: written with the same delimiters
-			prs, ptoks := respell(c19Partial, q)
-			if !sameTokens(ptoks, c19Tokens(prs, q)) {
-				c.Skip("re-spelled partial collides with the delimiters")
-				return
-			}
-			if _, pr := core.ParseCache(e, prs, "c19part.html", 1); !pr.OK() {
-				c.Violate(kind+"|partial-registration", "a partial written with the custom delimiters was rejected by ParseTemplateAndCache", map[string]any{"delims": fmt.Sprintf("%q", engQ), "partial": prs, "observed": pr.Brief()})
-				return
+			// the partials are templates of the same engine: written with the same delimiters
+			for name, psrc := range map[string]string{"c19part.html": c19Partial, "c19leaf.html": c19Leaf} {
+				prs, ptoks := respell(psrc, q)
+				if !sameTokens(ptoks, c19Tokens(prs, q)) {
+					c.Skip("re-spelled partial collides with the delimiters")
+					return
+				}
+				if _, pr := core.ParseCache(e, prs, name, 1); !pr.OK() {
+					c.Violate(kind+"|partial-registration", "a partial written with the custom delimiters was rejected by ParseTemplateAndCache", map[string]any{"delims": fmt.Sprintf("%q", engQ), "partial": prs, "observed": pr.Brief()})
+					return
+				}
 			}
 			c.Obs("cases_with_included_partial", 1)
 		}
-		got := core.Run(e, rs, b)
+		// every entry point of the configured engine must honour the delimiters
+		entries++
+		var got core.Res
+		switch entries % 4 {
+		case 0:
+			got = core.Run(e, rs, b)
+		case 1:
+			got = core.ParseAndRender(e, rs, b)
+		case 2:
+			got = core.ParseAndRenderString(e, rs, b)
+		default:
+			got = core.ParseAndFRender(e, nil, rs, b)
+		}
 		c.Eval(2)
 		c.Obs("respelled_cases", 1)
 		if q != ref.DefaultDelims {
